@@ -27,6 +27,10 @@ HIST_POOL = [
     "@f\nFeature: o\n  Scenario Outline: <h>\n    Given <h>\n    Examples:\n      | h |\n      | 1 |\n",
     "# language: xx\nFeature: u\n",
     "",
+    # the 11th error is raised INSIDE a look-ahead (tag line followed by a faulty tag line): the parse is abandoned with lines still queued
+    "".join(f"junk{i}\n" for i in range(10)) + "Feature: f\n  Scenario: s\n    Given x\n  @t\n  @bad tag\n  Scenario: t\n",
+    "# c0\nFeature: d\n  Scenario: s\n    Given x\n        ```\n        c\n        ```\n    And y\n      \"\"\" m\n      d\n      \"\"\"\n",
+    "Feature: i\n    indented description\n      more\n  Scenario: s\n    free\n",
 ]
 SCHED_POOL = [
     "Feature: a\n  Scenario: s\n    Given x\n",
@@ -87,6 +91,7 @@ def replay_history(pool, sess, default="en"):
     parser, matcher, comp = Parser(b), WatchMatcher(default), Compiler(idg)
     before = digest_dialects()
     bad = []
+    kept = []          # results the caller still holds: (the object returned, a deep copy taken when it was returned)
     for k, h in enumerate(hist):
         text = pool[h["d"] - 1]
         if idg._id_counter != h["nid0"]:
@@ -100,6 +105,11 @@ def replay_history(pool, sess, default="en"):
             bad.append(dict(step=k, what="outcome differs from the solo result", doc=text, spec=exp, impl=o))
         if idg._id_counter != res[k]["nid"]:
             bad.append(dict(step=k, what="id counter after parse", spec=res[k]["nid"], impl=idg._id_counter))
+        for (obj, snap, kk) in kept:
+            if obj != snap:
+                bad.append(dict(step=k, what=f"the document returned by parse #{kk} changed when a later document was parsed (shared mutable state)", doc=text))
+        if d is not None:
+            kept.append((d, copy.deepcopy(d), k))
         if d is not None:
             # compiling with the shared generator moves the counter: keep the spec's history aligned by restoring it
             keep = idg._id_counter
